@@ -443,6 +443,45 @@ func c08UnknownBody(c *Ctx) {
 		tests = hasTest(fn, 0)
 		c.Check(tests, "unknownbody", FuncName(fn)+":child[UnknownBody]", pos, "unknown child bodies yield an unknown value",
 			"the spec decodes child block bodies but has no UnknownBody test: with an unknown for_each it returns a known value although zero or many blocks are possible")
+		// once a child body has been found unknown, no error is recorded on the way to the return
+		for _, b := range fn.Blocks {
+			iff, ok := b.Instrs[len(b.Instrs)-1].(*ssa.If)
+			if !ok {
+				continue
+			}
+			call, ok := iff.Cond.(*ssa.Call)
+			if !ok || !(call.Call.IsInvoke() && call.Call.Method.Name() == "Unknown") {
+				// through a helper that performs the test
+				if !ok {
+					continue
+				}
+				cal := call.Call.StaticCallee()
+				if cal == nil || fnPkg(cal) == nil || fnPkg(cal).Path() != modPath+"/hcldec" || len(cal.Blocks) == 0 || !hasTest(cal, 1) {
+					continue
+				}
+			}
+			seen := map[*ssa.BasicBlock]bool{b.Succs[0]: true}
+			work := []*ssa.BasicBlock{b.Succs[0]}
+			bad := token.NoPos
+			for len(work) > 0 && bad == token.NoPos {
+				x := work[0]
+				work = work[1:]
+				for _, ins := range x.Instrs {
+					if recordsError(ins) {
+						bad = ins.Pos()
+						break
+					}
+				}
+				for _, su := range x.Succs {
+					if !seen[su] {
+						seen[su] = true
+						work = append(work, su)
+					}
+				}
+			}
+			c.Check(bad == token.NoPos, "unknownbody", FuncName(fn)+":unknown[noerror]", iff.Cond.Pos(), "no error is recorded after a child body was found unknown",
+				"after a child body has been found unknown (unknown for_each: zero or many blocks possible) an error diagnostic can still be recorded (at "+c.P.Position(bad)+") before the unknown result is returned: a count or duplicate check is applied to a placeholder block")
+		}
 		// in a per-block loop: once the child has been decoded the iteration cannot end without the test
 		for _, scc := range sccBlocks(fn.Blocks, nil) {
 			if len(scc) < 2 {
